@@ -221,7 +221,8 @@ CrUpdate(NE, NI) ==
     \* ---- C08: an interface created since the last published record and still existing is recorded (in use or for deletion)
     /\ G("C08", wr # "fail" => \A e \in fresh : cloud[e].on => HasEni(NE, e))
     /\ crE' = NE /\ crI' = NI /\ fresh' = {}
-    /\ rg' = { r \in rg : (\E y \in Bound(NI) : y.e = r[1] /\ y.a = r[2])                             \* the exemption lasts while the record still binds it
+    /\ rg' = { r \in rg : \/ r[2] \notin Addrs(r[1])                                                  \* the exemption lasts while the address is gone,
+                           \/ (\E y \in Bound(NI) : y.e = r[1] /\ y.a = r[2])                         \* while the record still binds it,
                            \/ (\E u \in Uids : up[u] /\ given[u].e = r[1] /\ r[2] \in {given[u].a4, given[u].a6}) }   \* or a sandbox still holds it
     /\ UNCHANGED <<conf, cloud, pods, rt, up, given, delp, told, absent, seen, wr, healthy>>
 
@@ -240,13 +241,12 @@ CreateBegin(n4, n6, type, rdma) ==
     /\ UNCHANGED vars
 
 CreateEnd(e, type, rdma, primary, v4s, v6s) ==
-    /\ IF e = 0 THEN UNCHANGED <<cloud, fresh, rg>>
+    /\ IF e = 0 THEN UNCHANGED <<cloud, fresh>>
        ELSE /\ ~cloud[e].on                                                                          \* (I)
             /\ cloud' = [cloud EXCEPT ![e] = [on |-> TRUE, att |-> FALSE, type |-> type, rdma |-> rdma, primary |-> primary, v4 |-> v4s, v6 |-> v6s]]
             /\ fresh' = fresh \cup {e}
-            /\ rg' = { x \in rg : x[1] # e }
     /\ seen' = IF e = 0 THEN seen ELSE seen \cup { <<e, a>> : a \in v4s \cup v6s }
-    /\ UNCHANGED <<conf, crE, crI, pods, rt, up, given, delp, told, absent, wr, healthy>>
+    /\ UNCHANGED <<conf, crE, crI, pods, rt, up, given, delp, told, absent, rg, wr, healthy>>
 
 Attach(e, effect) ==
     /\ cloud' = IF effect THEN [cloud EXCEPT ![e].att = TRUE] ELSE cloud
